@@ -124,7 +124,10 @@ def run_case(ck: Check, case: dict):
     if mode == "simple":
         kw["return_path"] = rp
         if ball_depth is not None:
-            st, ball = algos.call(g.bfs, max_diameter=ball_depth, return_all_hashes=True)
+            # a ball may also be handed over WITHOUT per-layer hashes and with gaps in its stored layers (nothing can be
+            # found through it then; whatever IS reported must still be a real walk)
+            bkw = {"return_all_hashes": True} if not case.get("ball_nohash") else {"return_all_hashes": False, "max_layer_size_to_store": case.get("ball_store", 2)}
+            st, ball = algos.call(g.bfs, max_diameter=ball_depth if not case.get("ball_nohash") else 10**6, **bkw)
             if st != "ok":
                 ck.violation("C06/bfs-error", "BFS raised: " + ball, {"case": case})
                 return
@@ -167,7 +170,7 @@ def run_case(ck: Check, case: dict):
         elif mode == "simple" and rp:
             ck.violation("C06/no-path-returned", "return_path=True but no path in a successful result", rep)
             return
-    if unpruned and d is not None and steps >= d:
+    if unpruned and d is not None and steps >= d and not (ball is not None and case.get("ball_nohash")):
         if not res.path_found or res.path_length != d:
             ck.violation("C06/not-exact-unpruned/" + mode + ("/dest" if case.get("dest") else ""), "unpruned beam with sufficient steps did not succeed with exactly the shortest distance", dict(rep, observed={"found": res.path_found, "path_length": res.path_length}))
             return
@@ -182,6 +185,9 @@ def run_case(ck: Check, case: dict):
     nsel = (max(sel) + 1) if sel else 0
     sel_line = " | ".join(" ".join(map(str, sel.get(i, []))) for i in range(nsel))
     if mode == "simple":
+        if ball is not None and case.get("ball_nohash"):
+            ck.count("ball-without-hashes (model not run)")
+            return
         ball_line = "noball" if ball is None else ctx.layers_line(ball.layers_hashes)
         m = ctx.drv.ask(f"beam.simple {width} {steps} {1 if rp else 0} ; {gd.pack(start)} ; {ball_line} ; {sel_line}")
     else:
@@ -245,6 +251,8 @@ def gen_case(ck, cap):
             "predictor": rng.choice(["hamming", "hamming", "zero", "const", "anti", "true", "table"]),
             "ball_depth": (rng.choice([0, 1, 2, 3]) if (mode == "simple" and rng.random() < 0.45 and (ic or rng.random() < 0.2)) else None),
             "pseed": rng.randrange(10**6),
+            "ball_nohash": rng.random() < 0.25,
+            "ball_store": rng.choice([1, 2, 3, 5]),
         }
         return c
     raise RuntimeError("no case")
